@@ -62,7 +62,7 @@ func runRT(r *ev.Recorder, c *rtCase) (key, msg string) {
 		if i%2 == 1 {
 			// odd positions: the message is a slice with sentinel-filled spare capacity behind it
 			var intact func() bool
-			m, intact = pu.Guard(orig)
+			m, intact = pu.GuardN(orig, []int{64, 4595, 8192}[i%3])
 			defer func(i int) {
 				if !intact() && key == "" {
 					key, msg = "sign/writes-behind-message", fmt.Sprintf("message %d: Sign/Seal/Verify/Open wrote into the caller's slice or the spare capacity behind it", i)
